@@ -113,6 +113,9 @@ func RunOne(t *testing.T, e Engine, tape *simrt.Tape, detail bool) (res *Result)
 	r := &Run{T: t, Tape: tape, Res: res, Detail: detail, hh: h, hsum: func() []byte { return h.Sum(nil) }}
 	var bodyPanic any
 	var bodyStack string
+	if p, ok := e.(interface{ Pre(*Run) }); ok {
+		p.Pre(r) // process-level preparation that must happen outside the bubble (e.g. runtime/trace)
+	}
 	func() {
 		defer func() {
 			if p := recover(); p != nil {
